@@ -55,9 +55,14 @@ def ranges(ls):
         out.append(str(ls[i]) if i == j else "%d-%d" % (ls[i], ls[j])); i = j + 1
     return " ".join(out)
 tot = [0, 0]
+det = open(os.path.join(ROOT, "build", "coverage-%s.txt" % tier), "w")
 for f in sorted(byfile):
     n, h, miss = byfile[f]
     tot[0] += n; tot[1] += h
-    print("%-28s %5d/%5d lines executed (%.1f%%)  never: %s" % (f, h, n, 100.0 * h / max(1, n), ranges(miss)))
+    print("%-28s %5d/%5d lines executed (%.1f%%)" % (f, h, n, 100.0 * h / max(1, n)))
+    det.write("%-28s %5d/%5d lines executed (%.1f%%)  never: %s\n" % (f, h, n, 100.0 * h / max(1, n), ranges(miss)))
 print("TOTAL %d/%d (%.1f%%)" % (tot[1], tot[0], 100.0 * tot[1] / max(1, tot[0])))
-print("functions never entered:", ", ".join(sorted("%s:%s" % (k[0], k[1]) for k, c in funcs.items() if c == 0)))
+nf = sorted("%s:%s" % (k[0], k[1]) for k, c in funcs.items() if c == 0)
+print("functions never entered (%d):" % len(nf), ", ".join(nf))
+det.write("functions never entered: " + ", ".join(nf) + "\n")
+print("details:", det.name)
